@@ -4,7 +4,7 @@ import json, os, random, shutil, time
 import common, lsp, p_text
 from common import hexs, Broken
 
-ALPHA = ["a", "b", " ", "\n", "\r\n", "ß", "ℝ", "💣", "(", "{", "}", "fn ", "x"]
+ALPHA = ["a", "b", " ", "\n", "\r\n", "ß", "ℝ", "💣", "(", "{", "}", "fn ", "x", "\ufeff", "\u2028"]
 
 
 def rand_text(rng, n=None):
@@ -44,6 +44,28 @@ def gen_sequence(rng, root):
     rid = 100
     n = rng.randrange(4, 12)
     is_open = {}
+    if rng.random() < 0.3:
+        # a probe that always reaches its target: a document with a character outside the BMP is opened and the
+        # next change uses the position between its two UTF-16 code units as insertion point, range start or range end
+        d = rng.choice(docs[:3])
+        t = rand_text(rng, rng.randrange(0, 6)) + rng.choice(["💣", "𝒳", "😀"]) + rand_text(rng, rng.randrange(0, 6))
+        if p_text.wf_crlf(t):
+            seq.append(("open", d, t))
+            is_open[d.key] = True
+            pos = p_text.client_positions(t)
+            (l, c, ix) = rng.choice([(l, c, ix) for (l, c, ix) in pos if ix < len(t) and ord(t[ix]) >= 0x10000])
+            shape = rng.randrange(3)
+            after = [q for q in pos if q[2] > ix]
+            before = [q for q in pos if q[2] <= ix]
+            ins = rand_text(rng, rng.randrange(0, 3))
+            if shape == 1 and after:
+                q = rng.choice(after); r = (l, c + 1, q[0], q[1])
+            elif shape == 2 and before:
+                q = rng.choice(before); r = (q[0], q[1], l, c + 1)
+            else:
+                r = (l, c + 1, l, c + 1)
+            seq.append(("change", d, [(r, ins, "mid-surrogate")]))
+            client[d.key] = "FORGOTTEN"
     for _ in range(n):
         if rng.random() < 0.2:
             # the rest of the server's registered surface: rename, ranged semantic tokens, formatting, didSave,
@@ -99,13 +121,17 @@ def gen_sequence(rng, root):
                 client[d.key] = t
             continue
         if k < 6:
+            # most edits go to a document the editor holds open and knows the text of
+            known = [dd for dd in docs if is_open.get(dd.key) and isinstance(client.get(dd.key), str) and client.get(dd.key) != "FORGOTTEN"]
+            if known and rng.random() < 0.6:
+                d = rng.choice(known)
             changes = []
             cur = client.get(d.key)
             was_forgotten = cur == "FORGOTTEN"
             if was_forgotten:
                 cur = None
             for _c in range(rng.randrange(1, 4)):
-                kind = rng.randrange(8)
+                kind = rng.randrange(9)
                 ins = rand_text(rng, rng.randrange(0, 4))
                 if kind == 0:
                     changes.append((None, ins, "full"))
@@ -153,14 +179,30 @@ def gen_sequence(rng, root):
                             new = cur[:si] + ins + cur[ei:]
                             cur = new if p_text.wf_crlf(new) else None
                 else:
-                    # inside a surrogate pair, if the document has a character outside the BMP
-                    found = None
-                    for (l, c, ix) in pos:
-                        if ix < len(base) and ord(base[ix]) >= 0x10000:
-                            found = (l, c + 1)
-                            break
-                    if found:
-                        changes.append(((found[0], found[1], found[0], found[1]), ins, "mid-surrogate")); cur = None
+                    # inside a surrogate pair, if the document has a character outside the BMP: as an insertion point
+                    # (empty range), as the start or as the end of a replaced range
+                    astral = [(l, c, ix) for (l, c, ix) in pos if ix < len(base) and ord(base[ix]) >= 0x10000]
+                    if cur is not None and not astral and rng.random() < 0.7:
+                        # make the document (known to the oracle) contain one, so that a later change can aim at it
+                        ins = rng.choice(["💣", "x💣", "💣\n", "𝒳y"])
+                        changes.append(((sl, sc, sl, sc), ins, "valid"))
+                        new = cur[:si] + ins + cur[si:]
+                        cur = new if p_text.wf_crlf(new) else None
+                        continue
+                    if astral and (cur is not None or rng.random() < 0.3):
+                        (l, c, ix) = rng.choice(astral)
+                        shape = rng.randrange(3)
+                        after = [q for q in pos if q[2] > ix]
+                        before = [q for q in pos if q[2] <= ix]
+                        if shape == 1 and after:
+                            q = rng.choice(after)
+                            changes.append(((l, c + 1, q[0], q[1]), ins, "mid-surrogate"))
+                        elif shape == 2 and before:
+                            q = rng.choice(before)
+                            changes.append(((q[0], q[1], l, c + 1), ins, "mid-surrogate"))
+                        else:
+                            changes.append(((l, c + 1, l, c + 1), ins, "mid-surrogate"))
+                        cur = None
                     else:
                         changes.append(((sl, sc, el, ec), ins, "valid"))
                         if cur is not None:
